@@ -121,6 +121,8 @@ pub fn solve_real_lp_problem_micro_lp(lp: &LinearModel) -> Result<LpSolution<f64
 
     let obj = lp.objective();
     let mut vars_microlp = Vec::with_capacity(obj.len());
+    // (column, variable holding the negative part) of every split free variable
+    let mut negative_parts = Vec::new();
     for (i, name) in variables.iter().enumerate() {
         let domain = if let Some(domain) = domain.get(name) {
             domain
@@ -132,6 +134,14 @@ pub fn solve_real_lp_problem_micro_lp(lp: &LinearModel) -> Result<LpSolution<f64
         };
         let var = match domain.get_type() {
             VariableType::NonNegativeReal(min, max) => problem.add_var(obj[i], (*min, *max)),
+            // microlp 0.5 mishandles a column without any finite bound (wrong Unbounded
+            // verdicts, internal errors, endless pivoting): a fully free variable is
+            // passed as the difference of two non-negative ones
+            VariableType::Real(min, max) if *min == f64::NEG_INFINITY && *max == f64::INFINITY => {
+                let negative_part = problem.add_var(-obj[i], (0.0, f64::INFINITY));
+                negative_parts.push((i, negative_part));
+                problem.add_var(obj[i], (0.0, f64::INFINITY))
+            }
             VariableType::Real(min, max) => problem.add_var(obj[i], (*min, *max)),
             _ => {
                 return Err(SolverError::InvalidDomain {
@@ -147,12 +157,17 @@ pub fn solve_real_lp_problem_micro_lp(lp: &LinearModel) -> Result<LpSolution<f64
     }
 
     for cons in lp.constraints() {
-        let coeffs = cons
+        let mut coeffs = cons
             .coefficients()
             .iter()
             .zip(vars_microlp.iter())
             .map(|(c, v)| (*v, *c))
             .collect::<Vec<_>>();
+        coeffs.extend(
+            negative_parts
+                .iter()
+                .map(|(i, v)| (*v, -cons.coefficients()[*i])),
+        );
         let rhs = cons.rhs();
         let comparison = match cons.constraint_type() {
             Comparison::LessOrEqual => microlp::ComparisonOp::Le,
@@ -180,7 +195,7 @@ pub fn solve_real_lp_problem_micro_lp(lp: &LinearModel) -> Result<LpSolution<f64
                 _ => {}
             }
             let obj = optimal_solution.objective() + lp.objective_offset();
-            let assignment = variables
+            let mut assignment = variables
                 .iter()
                 .zip(vars_microlp.iter())
                 .map(|(name, c)| Assignment {
@@ -188,6 +203,9 @@ pub fn solve_real_lp_problem_micro_lp(lp: &LinearModel) -> Result<LpSolution<f64
                     value: optimal_solution[*c],
                 })
                 .collect::<Vec<_>>();
+            for (i, v) in &negative_parts {
+                assignment[*i].value -= optimal_solution[*v];
+            }
             let coeffs = assignment.iter().map(|v| v.value).collect();
             let constraints = make_constraints_map_from_assignment(lp, &coeffs);
             Ok(LpSolution::new(assignment, obj, constraints))
